@@ -52,7 +52,8 @@ def cases(tier, seed):
                     out.append({'kind': 'table', 'rows': [list(r) for r in rows], 'geo': ('col', 'index')[k % 2], 'ids': 'str', 'colorder': co})
     base = [[1, 1, 1], [1, 0, 0]]
     for mal in ('no-geo', 'no-control', 'no-treatment', 'no-exclude', 'dup-ids', 'dup-ids-1-vs-str1', 'entry-2', 'entry--1',
-                'entry-0.5', 'entry-str1', 'entry-nan', 'dup-column', 'entry-True', 'entry-1.0'):
+                'entry-0.5', 'entry-str1', 'entry-nan', 'dup-column', 'entry-True', 'entry-1.0',
+                'two-bad-2-and-x', 'two-bad--1-and-str1', 'two-bad-None-and-0.5', 'two-bad-2-and-nan', 'two-bad-x-and-tuple'):
         for rows in ([[1, 1, 1], [1, 0, 0]], [[0, 1, 1], [1, 1, 0]], [[0, 0, 1], [0, 1, 0]]):
             out.append({'kind': 'malformed', 'rows': rows, 'what': mal})
             if mal.startswith('entry-'):      # the bad entry in every value column and in every row
@@ -133,6 +134,16 @@ def run_malformed(case):
         df['geo'] = pd.Series([1, '1'], dtype=object)
     elif what == 'dup-column':
         df = pd.concat([df, df[['control']]], axis=1)
+    elif what.startswith('two-bad-'):
+        # two illegal entries of DIFFERENT (mutually unorderable) types, in two different value columns
+        a, b = {'two-bad-2-and-x': (2, 'x'), 'two-bad--1-and-str1': (-1, '1'), 'two-bad-None-and-0.5': (None, 0.5),
+                'two-bad-2-and-nan': (2, np.nan), 'two-bad-x-and-tuple': ('x', (1, 2))}[what]
+        c1 = df['control'].astype(object)
+        c1.iloc[0] = a
+        df['control'] = c1
+        c2 = df['exclude'].astype(object)
+        c2.iloc[1] = b
+        df['exclude'] = c2
     elif what.startswith('entry-'):
         v = {'2': 2, '-1': -1, '0.5': 0.5, 'str1': '1', 'nan': np.nan, 'True': True, '1.0': 1.0}[what[6:]]
         cname = case.get('col', 'control')
